@@ -20,6 +20,7 @@ static int inited, open_t = -1, threaded, started, enabled, cycles;
 #define MAXMSG 400
 static struct { int required, delivered, logged_threaded; } MSG[MAXMSG];
 static int nmsg, last_delivered = -1, lost_reported, in_fini, fini_done_count;
+static int logger_busy;
 
 static void my_logger(int32_t t, struct qb_log_callsite *cs, struct timespec *ts, const char *msg)
 {
@@ -27,13 +28,21 @@ static void my_logger(int32_t t, struct qb_log_callsite *cs, struct timespec *ts
 	(void)cs; (void)ts;
 	if (t != open_t && open_t >= 0) vp_fail("logger called for target %d, the open one is %d", t, open_t);
 	if (sscanf(msg, "m%d", &seq) != 1 || seq < 0 || seq >= nmsg) vp_fail("logger got a message that was never logged: '%.40s'", msg);
-	if (burst && strlen(msg) < 3000) vp_fail("burst message arrived truncated (%zu bytes)", strlen(msg));
+	if (burst && seq < burst_n && strlen(msg) < 3000) vp_fail("burst message arrived truncated (%zu bytes)", strlen(msg));
 	vp_log("    target <- m%d (%s)", seq, vp_co_name(vp_co_self()));
+	/* writing takes time: the producer may run control operations meanwhile; the library has to keep them apart */
+	logger_busy++;
+	if (!burst && vp_co_self() > 0) vp_yield_free("inside the target's logger (a write takes time)");
+	logger_busy--;
 	if (MSG[seq].delivered++) vp_fail("message m%d written to the target twice", seq);
 	if (seq <= last_delivered) vp_fail("message m%d written after m%d: out of order", seq, last_delivered);
 	last_delivered = seq;
 }
-static void my_close(int32_t t) { (void)t; }
+static void my_close(int32_t t)
+{
+	(void)t;
+	if (logger_busy) vp_fail("the target's close callback ran while the logging thread was inside the target's logger");
+}
 
 int __wrap_printf(const char *fmt, ...);
 int __wrap_printf(const char *fmt, ...)
@@ -85,6 +94,7 @@ static void do_fini(void)
 	fini_done_count = nmsg;
 }
 
+static int others_idle(void *p) { (void)p; return vp_co_others_idle(); }
 static void producer(void *arg)
 {
 	int step, last_op = -1;
@@ -102,6 +112,9 @@ static void producer(void *arg)
 		if (r) vp_fail("thread_start failed: %d", r);
 		qb_log_ctl(open_t, QB_LOG_CONF_ENABLED, QB_TRUE); enabled = 1; inited = 1; started = 1;
 		for (i = 0; i < burst_n; i++) do_log(4000);
+		/* once the backlog has been worked off, logging works as before: later messages are written (or reported) too */
+		vp_block(others_idle, NULL, "the logging thread to work off the backlog");
+		for (i = 0; i < 3; i++) do_log(0);
 		do_fini();
 		if (lost_reported == 0 && vp_cost_spent() == 0) vp_log("note: no message was lost in this schedule");
 		return;
@@ -183,7 +196,7 @@ static int only_sync_points(const volatile void *a, int size, int w) { (void)a; 
 static void run(void)
 {
 	int i;
-	inited = 0; open_t = -1; threaded = started = enabled = cycles = 0; nmsg = 0; last_delivered = -1; lost_reported = 0;
+	inited = 0; open_t = -1; threaded = started = enabled = cycles = 0; nmsg = 0; last_delivered = -1; lost_reported = 0; logger_busy = 0;
 	vp_sched_reset();
 	vp_heap_reset();
 	vp_stack_size = 512 * 1024;
